@@ -20,8 +20,140 @@ import (
 
 func init() { register("C06", runC06) }
 
+// c06sweep: ALL sequences of up to 5 calls starting with call `first` of a 10-call
+// alphabet on one list (zero value), in lock-step with container/list. Element
+// arguments are "the oldest handle ever returned" (h0) and "the newest" (hN) - live or
+// already removed: PushFront, PushBack, Remove(h0), Remove(hN), MoveToFront(hN),
+// MoveToBack(h0), MoveBefore(hN,h0), MoveAfter(hN,h0), InsertBefore(v,h0),
+// InsertAfter(v,hN). After every call: Len, both traversals and the returned element.
+func c06sweep(c *core.Ctx, first int) {
+	const nOps = 10
+	names := []string{"PushFront", "PushBack", "Remove(h0)", "Remove(hN)", "MoveToFront(hN)", "MoveToBack(h0)", "MoveBefore(hN,h0)", "MoveAfter(hN,h0)", "InsertBefore(v,h0)", "InsertAfter(v,hN)"}
+	seqs := 0
+	for L := 1; L <= 5; L++ {
+		total := 1
+		for i := 1; i < L; i++ {
+			total *= nOps
+		}
+		for code := 0; code < total; code++ {
+			g, s := new(lists.List[int]), new(list.List)
+			var hs []eh
+			var hist []string
+			fail := func(sig, msg string) {
+				c.Violate("List.sweep:"+sig, fmt.Sprintf("%s [exhaustive sweep on a zero-value list, calls %v]", msg, hist), map[string]any{"history": hist})
+			}
+			v := 0
+			for x, k := code, 0; k < L; k++ {
+				op := first
+				if k > 0 {
+					op = x % nOps
+					x /= nOps
+				}
+				hist = append(hist, names[op])
+				if op >= 2 && len(hs) == 0 {
+					continue // no handle yet
+				}
+				var h0, hN eh
+				if len(hs) > 0 {
+					h0, hN = hs[0], hs[len(hs)-1]
+				}
+				v++
+				var ng *lists.Element[int]
+				var ns *list.Element
+				added := false
+				switch op {
+				case 0:
+					ng, ns, added = g.PushFront(v), s.PushFront(v), true
+				case 1:
+					ng, ns, added = g.PushBack(v), s.PushBack(v), true
+				case 2:
+					if a, b := g.Remove(h0.g), s.Remove(h0.s); a != b.(int) {
+						fail("Remove:value", fmt.Sprintf("Remove(h0) returned %d, container/list %v", a, b))
+						return
+					}
+				case 3:
+					if a, b := g.Remove(hN.g), s.Remove(hN.s); a != b.(int) {
+						fail("Remove:value", fmt.Sprintf("Remove(hN) returned %d, container/list %v", a, b))
+						return
+					}
+				case 4:
+					g.MoveToFront(hN.g)
+					s.MoveToFront(hN.s)
+				case 5:
+					g.MoveToBack(h0.g)
+					s.MoveToBack(h0.s)
+				case 6:
+					g.MoveBefore(hN.g, h0.g)
+					s.MoveBefore(hN.s, h0.s)
+				case 7:
+					g.MoveAfter(hN.g, h0.g)
+					s.MoveAfter(hN.s, h0.s)
+				case 8:
+					ng, ns, added = g.InsertBefore(v, h0.g), s.InsertBefore(v, h0.s), true
+				case 9:
+					ng, ns, added = g.InsertAfter(v, hN.g), s.InsertAfter(v, hN.s), true
+				}
+				if added {
+					if (ng == nil) != (ns == nil) {
+						fail("insert:nil", fmt.Sprintf("%s returned nil=%v, container/list nil=%v", names[op], ng == nil, ns == nil))
+						return
+					}
+					if ng != nil {
+						hs = append(hs, eh{ng, ns})
+					}
+				}
+				if g.Len() != s.Len() {
+					fail("Len", fmt.Sprintf("Len()=%d, container/list %d", g.Len(), s.Len()))
+					return
+				}
+				eg, es := g.Front(), s.Front()
+				for es != nil {
+					if eg == nil || eg.Value != es.Value.(int) {
+						fail("forward", "forward traversal differs from container/list")
+						return
+					}
+					eg, es = eg.Next(), es.Next()
+				}
+				if eg != nil {
+					fail("forward", "forward traversal is longer than container/list's")
+					return
+				}
+				eg, es = g.Back(), s.Back()
+				for es != nil {
+					if eg == nil || eg.Value != es.Value.(int) {
+						fail("backward", "backward traversal differs from container/list")
+						return
+					}
+					eg, es = eg.Prev(), es.Prev()
+				}
+				if eg != nil {
+					fail("backward", "backward traversal is longer than container/list's")
+					return
+				}
+				// every handle: same neighbours (removed handles have none in both)
+				for i, h := range hs {
+					gn, sn := h.g.Next(), h.s.Next()
+					gp, sp := h.g.Prev(), h.s.Prev()
+					if (gn == nil) != (sn == nil) || (gp == nil) != (sp == nil) || (gn != nil && gn.Value != sn.Value.(int)) || (gp != nil && gp.Value != sp.Value.(int)) {
+						fail("neighbours", fmt.Sprintf("handle %d has other neighbours than in container/list", i))
+						return
+					}
+				}
+			}
+			seqs++
+		}
+	}
+	c.Count("exhaustive_sweep_sequences", int64(seqs))
+	c.Count("exhaustive_sweeps_completed", 1)
+	c.NonTrivial(core.Mix(6, uint64(first), 0x5eeb))
+}
+
 func runC06(c *core.Ctx) {
-	if c.Index%100 == 42 {
+	if c.Index < 10 {
+		c06sweep(c, int(c.Index))
+		return
+	}
+	if c.Index%100 == 42 && c.Mode != "par" {
 		c06big(c)
 		return
 	}
